@@ -832,6 +832,9 @@ impl<TStdlib: Stdlib, TStdIn: Input, TStdOut: Printer, TLpt1: Printer>
                 } else {
                     None
                 },
+                go_sub_marks: self.go_sub_marks.clone(),
+                return_marks: self.return_marks.clone(),
+                error_marks: Some(self.last_error_marks),
             })
         } else {
             None
